@@ -36,7 +36,7 @@ theorem body_skeletons :
       [("-", "_consumer.write"), ("if/if", "self.disconnectConsumer"), ("if/if", "d.callback")] ∧
     Gen.Skel.skeleton "Connection.recordReceived" = [("if", "self._writeToConsumer"), ("-", "self._deliverRecords")] ∧
     Gen.Skel.skeleton "FileConsumer.write" = [("-", "_f.write"), ("if", "self._progress"), ("if", "self._hasher")] := by
-  decide +kernel
+  decide
 
 theorem chunk_size_pos : 0 < Gen.Consts.FILESENDER_CHUNK_SIZE := by decide
 
@@ -88,35 +88,37 @@ theorem ack_lost_fails (H : Hash) (hashed : Bytes) : checkAck H hashed none = .f
 
 /-- `receiver_success_exact`: if the receiver reports success, the final destination holds exactly
     the bytes the sender read and the temporary file is gone — any content, any size including 0,
-    any chunk size, consumer attached at any point, any hash, any zip codec. -/
-theorem receiver_success_exact {τ : Type} (H : Hash) (Z : Zip τ) (k : Nat) (hk : 0 < k) (src : Bytes) (evs : List Ev)
+    any chunk size, consumer attached at any point, any hash, any zip codec, and whatever stale
+    `dest.tmp` was lying in the receive directory (`stale`; the model's file write is positional,
+    `fileWrite`, so an open that does not truncate would leave the stale tail in `final`). -/
+theorem receiver_success_exact {τ : Type} (H : Hash) (Z : Zip τ) (k : Nat) (hk : 0 < k) (src : Bytes) (stale : Option Bytes) (evs : List Ev)
     (hchan : records evs <+: (sendFile k src).records)
-    (hok : (runRx H Z src.length false evs).result = .success) :
-    (runRx H Z src.length false evs).final = some (.file src) ∧
-    (runRx H Z src.length false evs).tmpExists = false := by
-  have hinv := inv_run H Z src.length false evs
+    (hok : (runRx H Z src.length false stale evs).result = .success) :
+    (runRx H Z src.length false stale evs).final = some (.file src) ∧
+    (runRx H Z src.length false stale evs).tmpExists = false := by
+  have hinv := inv_run H Z src.length false stale evs
   have hd := inv_done hinv (by rw [hok]; simp)
   obtain ⟨_, _, a3, a4, _, a6, a7, _⟩ := hd.ok hok
   have hpre : (records evs).flatten <+: src := by
     have := flatten_prefix hchan
     rwa [(sendFile_spec k hk src).1] at this
-  have : (runRx H Z src.length false evs).spool = src := prefix_eq_of_length (a4.trans hpre) a3
+  have : (runRx H Z src.length false stale evs).spool = src := prefix_eq_of_length (a4.trans hpre) a3
   have hf := a7 rfl
   rw [this] at hf
   exact ⟨hf, a6⟩
 
 /-- directory mode: success means the tree unpacked at the destination is the tree that was zipped -/
 theorem directory_success_exact {τ : Type} (H : Hash) (Z : Zip τ) (hZ : Z.Ideal) (k : Nat) (hk : 0 < k) (t : τ)
-    (evs : List Ev) (hchan : records evs <+: (sendFile k (Z.zip t)).records)
-    (hok : (runRx H Z (Z.zip t).length true evs).result = .success) :
-    (runRx H Z (Z.zip t).length true evs).final = some (.dir t) := by
-  have hinv := inv_run H Z (Z.zip t).length true evs
+    (stale : Option Bytes) (evs : List Ev) (hchan : records evs <+: (sendFile k (Z.zip t)).records)
+    (hok : (runRx H Z (Z.zip t).length true stale evs).result = .success) :
+    (runRx H Z (Z.zip t).length true stale evs).final = some (.dir t) := by
+  have hinv := inv_run H Z (Z.zip t).length true stale evs
   have hd := inv_done hinv (by rw [hok]; simp)
   obtain ⟨_, _, a3, a4, _, _, _, a8⟩ := hd.ok hok
   have hpre : (records evs).flatten <+: Z.zip t := by
     have := flatten_prefix hchan
     rwa [(sendFile_spec k hk _).1] at this
-  have hsp : (runRx H Z (Z.zip t).length true evs).spool = Z.zip t := prefix_eq_of_length (a4.trans hpre) a3
+  have hsp : (runRx H Z (Z.zip t).length true stale evs).spool = Z.zip t := prefix_eq_of_length (a4.trans hpre) a3
   obtain ⟨t', h1, h2⟩ := a8 rfl
   rw [hsp, hZ t] at h1
   cases h1
@@ -127,58 +129,58 @@ theorem directory_success_exact {τ : Type} (H : Hash) (Z : Zip τ) (hZ : Z.Idea
     `filesize` is not the number of bytes the sender later reads (the file changed), the hash in
     the ack forces the receiver's file to be the sender's bytes. -/
 theorem both_success_exact {τ : Type} (H : Hash) (hH : H.Ideal) (Z : Zip τ) (k : Nat) (hk : 0 < k) (src : Bytes)
-    (xfersize : Nat) (evs : List Ev) (delivered : Bool)
-    (hsender : checkAck H (sendFile k src).hashed (ackSeen (runRx H Z xfersize false evs) delivered) = .success)
-    (hhash : ∀ sha, ackSeen (runRx H Z xfersize false evs) delivered = some (.dict (some "ok") sha) → sha ≠ .absent) :
-    (runRx H Z xfersize false evs).result = .success ∧
-    (runRx H Z xfersize false evs).final = some (.file src) := by
-  have hinv := inv_run H Z xfersize false evs
+    (xfersize : Nat) (stale : Option Bytes) (evs : List Ev) (delivered : Bool)
+    (hsender : checkAck H (sendFile k src).hashed (ackSeen (runRx H Z xfersize false stale evs) delivered) = .success)
+    (hhash : ∀ sha, ackSeen (runRx H Z xfersize false stale evs) delivered = some (.dict (some "ok") sha) → sha ≠ .absent) :
+    (runRx H Z xfersize false stale evs).result = .success ∧
+    (runRx H Z xfersize false stale evs).final = some (.file src) := by
+  have hinv := inv_run H Z xfersize false stale evs
   obtain ⟨sha, hseen, hsha⟩ := (sender_success_needs_matching_ack H _ _).mp hsender
-  have hacks : (runRx H Z xfersize false evs).acks ≠ [] := by
+  have hacks : (runRx H Z xfersize false stale evs).acks ≠ [] := by
     intro h0
     unfold ackSeen at hseen
     cases delivered <;> simp [h0] at hseen
-  have hnp : (runRx H Z xfersize false evs).result ≠ .pending := fun hp => hacks (inv_pending hinv hp).2.1
+  have hnp : (runRx H Z xfersize false stale evs).result ≠ .pending := fun hp => hacks (inv_pending hinv hp).2.1
   have hd := inv_done hinv hnp
-  cases hr : (runRx H Z xfersize false evs).result with
+  cases hr : (runRx H Z xfersize false stale evs).result with
   | pending => exact absurd hr hnp
   | failed e => exact absurd (hd.bad e hr).2.1 hacks
   | success =>
     obtain ⟨_, _, _, _, a5, _, a7, _⟩ := hd.ok hr
     refine ⟨rfl, ?_⟩
-    have hseen' : some (AckMsg.dict (some "ok") (.digest (H.sha (runRx H Z xfersize false evs).spool))) =
+    have hseen' : some (AckMsg.dict (some "ok") (.digest (H.sha (runRx H Z xfersize false stale evs).spool))) =
         some (AckMsg.dict (some "ok") sha) := by
       unfold ackSeen at hseen
       cases delivered
       · simp at hseen
       · simpa [a5] using hseen
-    have hsha' : sha = .digest (H.sha (runRx H Z xfersize false evs).spool) := by
+    have hsha' : sha = .digest (H.sha (runRx H Z xfersize false stale evs).spool) := by
       cases hseen'; rfl
     rcases hsha with h1 | h1
     · exact absurd h1 (hhash sha hseen)
     · rw [h1, (sendFile_spec k hk src).2] at hsha'
-      have : src = (runRx H Z xfersize false evs).spool := hH _ _ (ShaField.digest.inj hsha')
+      have : src = (runRx H Z xfersize false stale evs).spool := hH _ _ (ShaField.digest.inj hsha')
       rw [this]
       exact a7 rfl
 
 /-- the honest receiver always puts the hash in: with it as the peer, sender success alone
     already gives exactness -/
 theorem sender_success_exact {τ : Type} (H : Hash) (hH : H.Ideal) (Z : Zip τ) (k : Nat) (hk : 0 < k) (src : Bytes)
-    (xfersize : Nat) (evs : List Ev) (delivered : Bool)
-    (hsender : checkAck H (sendFile k src).hashed (ackSeen (runRx H Z xfersize false evs) delivered) = .success) :
-    (runRx H Z xfersize false evs).result = .success ∧
-    (runRx H Z xfersize false evs).final = some (.file src) := by
-  refine both_success_exact H hH Z k hk src xfersize evs delivered hsender ?_
+    (xfersize : Nat) (stale : Option Bytes) (evs : List Ev) (delivered : Bool)
+    (hsender : checkAck H (sendFile k src).hashed (ackSeen (runRx H Z xfersize false stale evs) delivered) = .success) :
+    (runRx H Z xfersize false stale evs).result = .success ∧
+    (runRx H Z xfersize false stale evs).final = some (.file src) := by
+  refine both_success_exact H hH Z k hk src xfersize stale evs delivered hsender ?_
   intro sha hseen habs
   subst habs
-  have hinv := inv_run H Z xfersize false evs
-  have hacks : (runRx H Z xfersize false evs).acks ≠ [] := by
+  have hinv := inv_run H Z xfersize false stale evs
+  have hacks : (runRx H Z xfersize false stale evs).acks ≠ [] := by
     intro h0
     unfold ackSeen at hseen
     cases delivered <;> simp [h0] at hseen
-  have hnp : (runRx H Z xfersize false evs).result ≠ .pending := fun hp => hacks (inv_pending hinv hp).2.1
+  have hnp : (runRx H Z xfersize false stale evs).result ≠ .pending := fun hp => hacks (inv_pending hinv hp).2.1
   have hd := inv_done hinv hnp
-  cases hr : (runRx H Z xfersize false evs).result with
+  cases hr : (runRx H Z xfersize false stale evs).result with
   | pending => exact absurd hr hnp
   | failed e => exact absurd (hd.bad e hr).2.1 hacks
   | success =>
@@ -192,13 +194,13 @@ theorem sender_success_exact {τ : Type} (H : Hash) (hH : H.Ideal) (Z : Zip τ) 
     record boundary or not, dropped by C06 or simply cut — the receiver does not report success,
     nothing exists at the final destination (in file mode only `*.tmp` does), no ack was sent, and
     therefore the sender's wait for the ack ends in ConnectionClosed, never in success. -/
-theorem cut_no_success_no_final {τ : Type} (H : Hash) (Z : Zip τ) (xfersize : Nat) (dirMode : Bool) (evs : List Ev)
+theorem cut_no_success_no_final {τ : Type} (H : Hash) (Z : Zip τ) (xfersize : Nat) (dirMode : Bool) (stale : Option Bytes) (evs : List Ev)
     (hshort : (records evs).flatten.length < xfersize) :
-    let s := runRx H Z xfersize dirMode evs
+    let s := runRx H Z xfersize dirMode stale evs
     s.result ≠ .success ∧ s.final = none ∧ s.tmpExists = (!dirMode) ∧ s.acks = [] ∧
     (∀ hashed delivered, checkAck H hashed (ackSeen s delivered) = .failed .connectionClosed) := by
   intro s
-  have hinv := inv_run H Z xfersize dirMode evs
+  have hinv := inv_run H Z xfersize dirMode stale evs
   have hres := inv_short hinv hshort
   have hfacts : s.final = none ∧ s.acks = [] ∧ s.tmpExists = (!dirMode) := by
     rcases hres with hp | hf
@@ -208,9 +210,9 @@ theorem cut_no_success_no_final {τ : Type} (H : Hash) (Z : Zip τ) (xfersize : 
       exact ⟨b1, b2, b3⟩
   refine ⟨?_, hfacts.1, hfacts.2.2, hfacts.2.1, ?_⟩
   · rcases hres with hp | hf
-    · show (runRx H Z xfersize dirMode evs).result ≠ .success
+    · show (runRx H Z xfersize dirMode stale evs).result ≠ .success
       rw [hp]; simp
-    · show (runRx H Z xfersize dirMode evs).result ≠ .success
+    · show (runRx H Z xfersize dirMode stale evs).result ≠ .success
       rw [hf]; simp
   · intro hashed delivered
     have h0 : s.acks = [] := hfacts.2.1
@@ -219,46 +221,46 @@ theorem cut_no_success_no_final {τ : Type} (H : Hash) (Z : Zip τ) (xfersize : 
 
 /-- … and once the consumer is attached, the loss of the connection makes the receiver's Deferred
     fail (ConnectionClosed) rather than hang -/
-theorem cut_then_lost_fails {τ : Type} (H : Hash) (Z : Zip τ) (xfersize : Nat) (dirMode : Bool) (evs : List Ev)
+theorem cut_then_lost_fails {τ : Type} (H : Hash) (Z : Zip τ) (xfersize : Nat) (dirMode : Bool) (stale : Option Bytes) (evs : List Ev)
     (hshort : (records evs).flatten.length < xfersize)
-    (hstarted : (runRx H Z xfersize dirMode evs).started = true) :
-    (runRx H Z xfersize dirMode (evs ++ [.lost])).result = .failed .connectionClosed := by
+    (hstarted : (runRx H Z xfersize dirMode stale evs).started = true) :
+    (runRx H Z xfersize dirMode stale (evs ++ [.lost])).result = .failed .connectionClosed := by
   rw [runRx_append]
-  exact inv_started_lost (inv_run H Z xfersize dirMode evs) hstarted hshort
+  exact inv_started_lost (inv_run H Z xfersize dirMode stale evs) hstarted hshort
 
 /-- the `received < xfersize → TransferError` branch of `_transfer_data` can never be taken:
     `writeToFile` fires only once the count is reached and otherwise errbacks.  The cut is caught
     by the errback, the check itself is dead code. -/
-theorem transferError_unreachable {τ : Type} (H : Hash) (Z : Zip τ) (xfersize : Nat) (dirMode : Bool) (evs : List Ev) :
-    (runRx H Z xfersize dirMode evs).result ≠ .failed .transferError := by
+theorem transferError_unreachable {τ : Type} (H : Hash) (Z : Zip τ) (xfersize : Nat) (dirMode : Bool) (stale : Option Bytes) (evs : List Ev) :
+    (runRx H Z xfersize dirMode stale evs).result ≠ .failed .transferError := by
   intro hr
-  have hd := inv_done (inv_run H Z xfersize dirMode evs) (by rw [hr]; simp)
+  have hd := inv_done (inv_run H Z xfersize dirMode stale evs) (by rw [hr]; simp)
   obtain ⟨_, _, _, b4⟩ := hd.bad _ hr
   rcases b4 with b | b | b <;> exact absurd b.1 (by simp)
 
 /-- the hypotheses of the success theorems are met by *every* honest run: all records delivered
     in any interleaving with attaching the consumer, no loss ⇒ both ends succeed and the file is exact -/
-theorem honest_run_succeeds {τ : Type} (H : Hash) (Z : Zip τ) (k : Nat) (hk : 0 < k) (src : Bytes) (evs : List Ev)
+theorem honest_run_succeeds {τ : Type} (H : Hash) (Z : Zip τ) (k : Nat) (hk : 0 < k) (src : Bytes) (stale : Option Bytes) (evs : List Ev)
     (hall : records evs = (sendFile k src).records) (hconn : sawConnect evs = true) (hnolost : sawLost evs = false) :
-    let s := runRx H Z src.length false evs
+    let s := runRx H Z src.length false stale evs
     s.result = .success ∧ s.final = some (.file src) ∧ s.tmpExists = false ∧
     checkAck H (sendFile k src).hashed (ackSeen s true) = .success := by
   intro s
-  have hinv := inv_run H Z src.length false evs
+  have hinv := inv_run H Z src.length false stale evs
   have hflat : (records evs).flatten = src := by rw [hall]; exact (sendFile_spec k hk src).1
   have hres : s.result = .success := by
     rcases inv_complete hinv hconn hnolost (by rw [hflat]) with h | ⟨_, h, _⟩
     · exact h
     · exact absurd h (by simp)
-  have hex := receiver_success_exact H Z k hk src evs (by rw [hall]; exact List.prefix_refl _) hres
+  have hex := receiver_success_exact H Z k hk src stale evs (by rw [hall]; exact List.prefix_refl _) hres
   refine ⟨hres, hex.1, hex.2, ?_⟩
   have hd := inv_done hinv (by rw [hres]; simp)
   obtain ⟨_, _, a3, a4, a5, _⟩ := hd.ok hres
   have hsp : s.spool = src := prefix_eq_of_length (by rw [← hflat]; exact a4) a3
-  show checkAck H (sendFile k src).hashed (ackSeen (runRx H Z src.length false evs) true) = .success
+  show checkAck H (sendFile k src).hashed (ackSeen (runRx H Z src.length false stale evs) true) = .success
   unfold ackSeen
   rw [a5]
-  have : (runRx H Z src.length false evs).spool = src := hsp
+  have : (runRx H Z src.length false stale evs).spool = src := hsp
   simp [checkAck, this, (sendFile_spec k hk src).2]
 
 /-! ## the hypotheses are satisfiable: concrete instances and runs -/
@@ -270,22 +272,27 @@ example : toyHash.Ideal ∧ toyZip.Ideal := ⟨fun _ _ h => h, fun _ => rfl⟩
 example :
     let evs := [Ev.record [1, 2], .connect, .record [3, 4], .record [5]]
     records evs = (sendFile 2 [1, 2, 3, 4, 5]).records ∧ sawConnect evs = true ∧ sawLost evs = false ∧
-    (runRx toyHash toyZip 5 false evs).result = .success := by decide
+    (runRx toyHash toyZip 5 false none evs).result = .success := by decide
+
+/-- a longer `dest.tmp` left behind by an interrupted transfer does not leak into the new file -/
+example :
+    (runRx toyHash toyZip 2 false (some [9, 9, 9, 9, 9]) [.connect, .record [1, 2]]).final = some (.file [1, 2]) := by
+  decide
 
 /-- the empty file: no record at all, success on attaching -/
-example : (runRx toyHash toyZip 0 false [.connect]).result = .success ∧ (sendFile 2 []).records = [] := by decide
+example : (runRx toyHash toyZip 0 false none [.connect]).result = .success ∧ (sendFile 2 []).records = [] := by decide
 
 /-- a cut after 4 of 5 bytes: the receiver has started, fails on the loss, only the tmp file exists -/
 example :
     let evs := [Ev.connect, .record [1, 2], .record [3, 4]]
-    (records evs).flatten.length < 5 ∧ (runRx toyHash toyZip 5 false evs).started = true ∧
-    (runRx toyHash toyZip 5 false (evs ++ [.lost])).result = .failed .connectionClosed ∧
-    (runRx toyHash toyZip 5 false (evs ++ [.lost])).tmpExists = true := by decide
+    (records evs).flatten.length < 5 ∧ (runRx toyHash toyZip 5 false none evs).started = true ∧
+    (runRx toyHash toyZip 5 false none (evs ++ [.lost])).result = .failed .connectionClosed ∧
+    (runRx toyHash toyZip 5 false none (evs ++ [.lost])).tmpExists = true := by decide
 
 /-- the announced size can differ from what is read: 2 bytes announced, 4 read in 2-byte chunks —
     the receiver succeeds with the first chunk, the sender refuses the ack (hash of 2 ≠ hash of 4) -/
 example :
-    let s := runRx toyHash toyZip 2 false [.connect, .record [1, 2], .record [3, 4]]
+    let s := runRx toyHash toyZip 2 false none [.connect, .record [1, 2], .record [3, 4]]
     s.result = .success ∧ checkAck toyHash (sendFile 2 [1, 2, 3, 4]).hashed (ackSeen s true) = .failed .transferError := by
   decide
 
